@@ -565,7 +565,7 @@ func (r *Run) finish() int {
 			continue
 		}
 		newViol++
-		rp := filepath.Join(evDir, "replay", fmt.Sprintf("%s-%s-%d.json", r.ID, r.Tier, i))
+		rp := filepath.Join(evDir, "replay", fmt.Sprintf("%s-%s-s%d-%d.json", r.ID, r.Tier, r.Seed, i))
 		b, _ := json.MarshalIndent(map[string]any{"property": r.ID, "seed": r.Seed, "tier": r.Tier, "key": v.Key, "what": v.What, "replay": v.Replay}, "", " ")
 		_ = os.WriteFile(rp, b, 0o644)
 		fmt.Printf("VIOLATION property=%s replay=%s\n", r.ID, rp)
